@@ -505,7 +505,12 @@ class Path(ConfigValue[_ExpandedPath]):
 
     def deserialize(self, value: AnyStr) -> _ExpandedPath | None:
         raw_value = decode(value).strip()
-        expanded = path.expand_path(raw_value)
+        try:
+            expanded = path.expand_path(raw_value)
+        except RuntimeError as exc:
+            # pathlib raises RuntimeError for an unknown "~user" and for
+            # symlink loops. Report it like any other invalid value.
+            raise ValueError(str(exc)) from exc
         validators.validate_required(raw_value, self._required)
         validators.validate_required(expanded, self._required)
         if not raw_value or expanded is None:
